@@ -1060,13 +1060,14 @@ func (x *FnExec) execInstr(fr *Frame, in ssa.Instruction, st *State, g *Term) *T
 		if fr.top && x.top != nil {
 			// a fresh map named in a mapassert starts with ghost(mapupd, m) == 0
 			for _, ma := range x.top.MapAsserts {
-				if staticDebugName(fr.fn, ma.Callee, v) {
+				// (a field map named "x.f" is created by `x.f = make(...)`: the new map has had no update either)
+				if staticDebugName(fr.fn, ma.Callee, v) || strings.Contains(ma.Callee, ".") {
 					gt := x.ghostTypes["mapupd"]
 					if gt == nil {
 						gt = types.NewNamed(types.NewTypeName(0, nil, "ghost_mapupd", nil), types.Typ[types.Int], nil)
 						x.ghostTypes["mapupd"] = gt
 					}
-					x.store(st, &Place{kind: pkHeap, ref: fr.vals[v].(*Term), obj: gt}, x.tc.Int(0))
+					x.store(st, &Place{kind: pkHeap, ref: fr.vals[v].(*Term), obj: gt}, x.refConst(0))
 				}
 			}
 		}
@@ -1791,7 +1792,7 @@ func (x *FnExec) mapUpdate(fr *Frame, v *ssa.MapUpdate, st *State, g *Term) {
 			}
 			pl := &Place{kind: pkHeap, ref: m, obj: gt}
 			cur := x.load(st, pl).(*Term)
-			x.store(st, pl, x.intAdd(cur, tc.Int(1)))
+			x.store(st, pl, x.intAdd(cur, x.refConst(1)))
 		}
 	}
 	dh := st.getHeap(dom, SArr(rs, SArr(ks, SBool)))
